@@ -201,4 +201,129 @@ theorem arff_dense_other_quote_counterexample :
     arffLines 1 ALR.init [arffWriteRow SQ (fun c => c == DQ) 0 [(false, [120, DQ, 121, BS, 122])]] = .error .cobaException := by
   decide
 
+/-! ### (a) once more: the three content encodings in one statement -/
+
+/-- `HttpSource._byte_it_(encoding, 'utf-8', chunk, bites)` (repaired) for `encoding ∈ {None,
+'gzip', 'deflate'}`: the decompressor enters only as an abstract streaming function `D`
+(`lambda x: x`, `zlib.decompressobj(16+MAX_WBITS).decompress`, `zlib.decompressobj(-MAX_WBITS)
+.decompress`) of which exactly two laws are assumed (`Decomp.Lawful`): (L1) feeding nothing
+yields nothing and leaves the state unchanged, (L2) the output for `a ++ b` is the output for `a`
+followed by the output for `b` from the state `a` left.  Then for every compressed stream `bs`:
+every chunk size (`b.read(size)`, `size = 0` standing for `chunk=None`, all at once) and every
+other way of cutting `bs` yields the lines of the whole decoded text, or the same error.
+The identity instance is proved lawful (`identity_lawful`); for zlib the laws are trusted and the
+harness checks on every case that the pieces its `decompressobj` returns concatenate to the plain text. -/
+theorem delivery_invariance {σ} (D : Decomp σ) (hD : D.Lawful) (bs : List Nat) :
+    (∀ size, readFix D (chunksOf size bs) = readWhole D bs) ∧
+    (∀ cs : List (List Nat), cs.flatten = bs → readFix D cs = readWhole D bs) :=
+  delivery_invariance' D hD bs
+
+/-! ### (c) ARFF sparse rows -/
+
+/-- `ArffLineReader._sparse` reads back every row `{i v,i v,…}` a sparse writer produces with bare
+values: indices as decimal digits, distinct, inside `[0,n)`, a comma and any number of blanks
+between items; values non-empty without white space or comma, not ending in a brace
+(`sparseRowOk`).  Quoted values are outside: the reader has no quote handling (C12-F10).
+theorem arff_sparse_roundtrip_full (values quoted as Weka writes them)   -- FALSE: C12-F10 -/
+theorem arff_sparse_roundtrip_partial (n pad : Nat) (items : List (Text × Text)) (h : sparseRowOk n items = true) :
+    arffSparseLine n (sparseWriteRow pad items) = .ok (items.map (fun p => (digitsVal p.1, p.2))) :=
+  arffSparseLine_written n pad items h
+
+example : sparseRowOk 4 [([48], [49, 46, 53]), ([51], [105, 116, 39, 115])] = true ∧
+    sparseWriteRow 1 [([48], [49, 46, 53]), ([51], [105, 116, 39, 115])] =
+      [123, 48, 32, 49, 46, 53, 44, 32, 51, 32, 105, 116, 39, 115, 125] := by decide
+
+/-- C12-F10: Weka writes the value `s t` as `'s t'`; the tokenizer cuts it at the blank -/
+theorem arff_sparse_quoted_counterexample :
+    arffSparseLine 1 [123, 48, 32, 39, 115, 32, 116, 39, 125] = .error .valueError := by decide
+
+/-! ### (d) respellings of an ARFF file that provably do not change what is read
+
+`arffRead` is the whole `ArffReader` (header, data section, encoders, missing flags, dense and
+sparse rows, fallback parser); `arffReadN` is the same on stripped non-empty lines. -/
+
+/-- line framing: whatever is delivered, only the stripped non-empty lines matter … -/
+theorem arff_framing_invariance (l1 l2 : List Text) (h : arffNormalize l1 = arffNormalize l2) :
+    arffRead l1 = arffRead l2 := arff_framing' l1 l2 h
+
+/-- … so a blank (or white-space only) line anywhere changes nothing … -/
+theorem arff_blank_line_invariance (a c : List Text) (b : Text) (hb : strip b = []) :
+    arffRead (a ++ b :: c) = arffRead (a ++ c) := arff_framing' _ _ (arffNormalize_blank a c b hb)
+
+/-- … and neither does a line terminator left on a line (`\n`, `\r\n`: CRLF vs LF files,
+`keepends` delivery) nor any other trailing white space -/
+theorem arff_line_ending_invariance (a c : List Text) (l s : Text) (hs : ∀ x ∈ s, isPySpace x = true) :
+    arffRead (a ++ (l ++ s) :: c) = arffRead (a ++ l :: c) := arff_framing' _ _ (arffNormalize_ws a c l s hs)
+
+example : ∀ x ∈ [CR, LF], isPySpace x = true := by decide
+
+/-- keyword case: `@data`, `@DATA`, `@Data` … (the first `@data` line of the file) -/
+theorem arff_data_keyword_case (pre post : List Text) (d1 d2 : Text) (h1 : lowerAscii d1 = kwData) (h2 : lowerAscii d2 = kwData)
+    (hpre : ∀ l ∈ pre, lowerAscii l ≠ kwData) :
+    arffReadN (pre ++ d1 :: post) = arffReadN (pre ++ d2 :: post) := arff_data_keyword' pre post d1 d2 h1 h2 hpre
+
+/-- keyword case: `@attribute` / `@ATTRIBUTE` … followed by any one separator character -/
+theorem arff_attribute_keyword_case (pre post : List Text) (a1 a2 : Text)
+    (h1 : lowerAscii (a1.take 10) = kwAttribute) (h2 : lowerAscii (a2.take 10) = kwAttribute) (hr : a1.drop 11 = a2.drop 11)
+    (hpre : ∀ l ∈ pre, lowerAscii l ≠ kwData) :
+    arffReadN (pre ++ a1 :: post) = arffReadN (pre ++ a2 :: post) := arff_attribute_keyword' pre post a1 a2 h1 h2 hr hpre
+
+/-- keyword case of the type (`numeric`/`NUMERIC`/`Real`/`STRING`/`date …`) -/
+theorem arff_type_keyword_case (isDense : Bool) (e1 e2 : Text) (h : lowerAscii e1 = lowerAscii e2)
+    (h1 : e1.head? ≠ some LBRACE) (h2 : e2.head? ≠ some LBRACE) : arffEncoder isDense e1 = arffEncoder isDense e2 :=
+  arff_type_keyword' isDense e1 e2 h h1 h2
+
+/-- a `%` comment (or `@relation`, or anything that is not an attribute line) in the header is ignored -/
+theorem arff_header_comment_invariance (pre post : List Text) (j : Text) (hj1 : lowerAscii j ≠ kwData)
+    (hj2 : lowerAscii (j.take 5) ≠ kwAttr) (hpre : ∀ l ∈ pre, lowerAscii l ≠ kwData) :
+    arffReadN (pre ++ j :: post) = arffReadN (pre ++ post) := arff_header_other_line' pre post j hj1 hj2 hpre
+
+/-- a `%` comment line anywhere in the data section (before the first row, between rows, at the end) is ignored -/
+theorem arff_data_comment_invariance (hdr a b : List Text) (kw c : Text) (hkw : lowerAscii kw = kwData)
+    (hhdr : ∀ l ∈ hdr, lowerAscii l ≠ kwData) (hc : c.head? = some PCT) :
+    arffReadN (hdr ++ kw :: (a ++ c :: b)) = arffReadN (hdr ++ kw :: (a ++ b)) := arff_data_comment' hdr a b kw c hkw hhdr hc
+
+/-! ### (c) ARFF attribute header -/
+
+/-- `ArffAttrReader` reads back every header a Weka / OpenML-style writer produces: per attribute
+the keyword in any case, one separator character, the name (bare, or quoted with `q` and the
+quote character backslash-escaped — plus any further characters the writer likes to escape),
+white space, and the type: `numeric`/`integer`/`real`, `string`/`date …`/`relational` in any case,
+or a nominal list `{l1, l2, …}` of bare or quoted levels with any number of blanks after the commas.
+The reader returns exactly the names and, per attribute, the encoder with the levels in the
+written order (sparse files: with coba's extra level `'0'` in front).
+Hypotheses (`AttrW.ok`), each forced by a recorded finding: quoted names/levels hold no backslash
+(C12-F8) and do not begin with white space, levels not with a comma (C12-F9, slightly
+stronger: the code copes with `' B'`); bare ones hold no separator; names are distinct, the levels
+of one attribute are distinct (and not `'0'` in a sparse file) — otherwise coba re-sorts them.
+theorem arff_header_roundtrip_full (any name / level text)   -- FALSE: C12-F8, C12-F9 -/
+theorem arff_header_roundtrip (isDense : Bool) (q : Nat) (hq : q = SQ ∨ q = DQ) (also : Nat → Bool) (attrs : List AttrW)
+    (hok : ∀ a ∈ attrs, a.ok isDense = true) (hnd : (attrs.map (·.name.2)).Nodup) :
+    arffAttrs isDense [] (attrs.map (·.line q also)) = .ok (attrs.map (fun a => (a.name.2, a.typ.enc isDense))) :=
+  arffAttrs_written isDense q hq also attrs [] hok hnd (fun _ _ => by simp)
+
+/-- the nominal level list alone: `_split(encoding[1:-1], r_comma)` -/
+theorem arff_levels_roundtrip (q : Nat) (hq : q = SQ ∨ q = DQ) (also : Nat → Bool) (pad : Nat) (levels : List (Bool × Text))
+    (hne : levels ≠ []) (hok : ∀ x ∈ levels, hdrTokOk true x = true) :
+    arffSplit .comma none (hdrWriteLevels q also pad levels) = .ok (levels.map (·.2)) :=
+  arffSplit_levels' q hq also pad levels hne hok
+
+example : AttrW.ok true ⟨[64,65,84,84,82,73,66,85,84,69], 9, (true, [97, 32, 39, 98]), [32, 32],
+    .nominal 1 [(false, [120]), (true, [121, 44, 32, 122]), (true, [])]⟩ = true := by decide
+
+/-- C12-F8: Weka writes the name `a\b` as `'a\\b'`; the reader returns `ab` -/
+theorem arff_header_backslash_counterexample :
+    arffAttrs true [] [[64,97,116,116,114,105,98,117,116,101,32,39,97,92,92,98,39,32,110,117,109,101,114,105,99]] =
+      .ok [([97, 98], .numeric)] := by decide
+
+/-- C12-F9: the level `,x` written `',x'` raises IndexError -/
+theorem arff_header_comma_level_counterexample :
+    arffAttrs true [] [[64,97,116,116,114,105,98,117,116,101,32,97,32,123,39,44,120,39,44,121,125]] = .error .indexError := by
+  decide
+
+/-- C12-F13: with a level named `?` the missing marker is read as that level -/
+theorem arff_level_qmark_counterexample :
+    encodeCell (.nominal [[67], [63]]) [63] = .ok (.cat [63] [[67], [63]]) ∧ encodeCell (.nominal [[67]]) [63] = .ok .missing := by
+  decide
+
 end Coba.C12
